@@ -19,6 +19,8 @@ from vf.core import Result
 ID = "C20"
 LEVEL = "exploration"
 BUDGET = {"quick": 24000, "thorough": 640000}
+# coverage-guided phase (atheris drives the same strategy through fuzz_one_input; thorough tier only)
+FUZZ = {"quick": 0, "thorough": 480000, "include": ['mici.utils']}
 RULE = (
     "Hypothesis draws helper calls (log1p_exp, log1m_exp, log_sum_exp, log_diff_exp) and operator "
     "programs over LogRepFloat registers; log-values cover the whole finite double range with "
